@@ -60,10 +60,11 @@ def Property.primaryKey (p : Property) : Bool :=
 def Property.effRequired (p : Property) : Bool := p.required || p.primaryKey
 
 /-- whether the compiled field distinguishes "unset" from "zero". Message fields do; plain scalars
-and arrays do not. For `? type` it depends on a fact about the compiler, `optPres`: at the moment
-`proto3_optional` is set without a synthetic oneof, so the linked field has **no** presence
-(`optPres = false`, open finding `optional-field-without-presence`). The harness measures the fact
-on the real compiler and ships it with every op; every theorem holds for both values. -/
+and arrays do not. For `? type` it depends on a fact about the compiler, `optPres`: since c0f36ba the
+compiler adds the synthetic oneof of a proto3 `optional` field, so the linked field has presence
+(`optPres = true`); before, `proto3_optional` was set without it (`optPres = false`, fixed finding
+`optional-field-without-presence`). The harness measures the fact on the real compiler and ships
+it with every op; every theorem holds for both values. -/
 def Property.hasPresence (p : Property) (optPres : Bool) : Bool :=
   match p.schema with
   | .single s => s.isMessage || (optPres && p.explicitlyOptional)
